@@ -2,7 +2,6 @@ package acmelib
 
 import (
 	"fmt"
-	"math"
 	"slices"
 	"strings"
 )
@@ -56,7 +55,7 @@ func newMultiplexerSignalFromBase(base *signal, groupCount, groupSize int) (*Mul
 
 	// the total size is the group size plus the bits of the selector (at most 63):
 	// it must be representable
-	if groupSize > math.MaxInt-64 {
+	if groupSize > int(^uint(0)>>1)-64 {
 		return nil, &ArgumentError{
 			Name: "groupSize",
 			Err:  ErrTooBig,
